@@ -53,13 +53,19 @@ Definition unit_sp (u : unit_) : sunit :=
   | x :: l => mkSUnit (kwt k1) ws1 (id_tok (u_name u)) (map wb_sp (u_decls u)) nl1 (Some (list_sp ss_of x l)) nl1 (kwt k2)
   end.
 
+(* FUNCTION name : type, one block per variable, the statements -- an empty list is written as an empty statement *)
+Definition func_sp (f : func_) : sfunc :=
+  mkSFunc (kwt KFunction) ws1 (id_tok (fn_name f)) ws1 colon_t ws1 (ty_tok (fn_ret f)) (map wb_sp (fn_decls f)) nl1
+    (body_sp ss_of (fn_body f)) (tail_gap (fn_body f)) (kwt KEndFunction).
+
 Definition elem_sp (e : elem) : list swe :=
   match e with
   | ETypes l => map (fun d => WE nl1 (SeTypes (tblock_sp d))) l
   | EUnit u => [WE nl1 (SeUnit (unit_sp u))]
+  | EFunc f => [WE nl1 (SeFunc (func_sp f))]
   end.
 Definition render_lib2 (es : list elem) : list token := flat_lib2 (flat_map elem_sp es) ++ nl1.
 
 (* the library holds a flat sequence of declarations: one TYPE block per declaration is the same library *)
 Definition split_types (es : list elem) : list elem :=
-  flat_map (fun e => match e with ETypes l => map (fun d => ETypes [d]) l | EUnit u => [EUnit u] end) es.
+  flat_map (fun e => match e with ETypes l => map (fun d => ETypes [d]) l | EUnit u => [EUnit u] | EFunc f => [EFunc f] end) es.
